@@ -35,10 +35,11 @@ pub fn seg_alphabet(f: Family, level: u8) -> Vec<Vec<u8>> {
 	let mut v: Vec<&str> = vec!["", ".", "..", "a", "a:b", "1:b"];
 	if level >= 1 {
 		// "%2E%2E": an ordinary segment that only DECODES to ".."
-		v.extend(["b", "%2E", "%2E%2E", "%41", "A", "~", "x@y"]);
+		// "...", "a..": ordinary segments that merely END with ".."
+		v.extend(["b", "%2E", "%2E%2E", "%41", "A", "~", "x@y", "...", "a.."]);
 	}
 	if level >= 2 {
-		v.extend(["%2F", "%FF", "%c3%a9", "...", ".a", ";=+"]);
+		v.extend(["%2F", "%FF", "%c3%a9", ".a", ";=+"]);
 	}
 	if f == Family::Iri {
 		v.push("é");
@@ -247,4 +248,60 @@ pub fn long_paths(abs: bool) -> Vec<Vec<u8>> {
 	v.push(format!("{pre}{big}/../{}", segs(3)));
 	v.push(format!("{pre}a//{big}/.//b"));
 	v.into_iter().map(|s| s.into_bytes()).collect()
+}
+
+/// Scalars that general-purpose string code treats specially although the IRI grammar does not:
+/// Unicode white space that `str::trim` strips (U+00A0 is also the FIRST ucschar), the byte-order
+/// mark, zero-width and bidi controls, characters whose case mapping leaves or enters ASCII
+/// (KELVIN SIGN lower-cases to 'k', LONG S upper-cases to 'S', dotted capital I), the first and last
+/// scalar of a few ucschar / iprivate blocks, noncharacter neighbours. All but the last three are
+/// ucschar (allowed wherever 'é' is); U+E000 / U+F8FF are iprivate (query only); U+FFFD is in no
+/// IRI production.
+pub fn special_scalars() -> Vec<char> {
+	vec![
+		'\u{A0}', '\u{1680}', '\u{2000}', '\u{200A}', '\u{2028}', '\u{2029}', '\u{202F}', '\u{205F}', '\u{3000}', '\u{85}', '\u{FEFF}', '\u{200B}', '\u{200E}', '\u{202E}',
+		'\u{AD}', '\u{212A}', '\u{17F}', '\u{130}', '\u{DF}', '\u{D7FF}', '\u{F900}', '\u{FDCF}', '\u{FDF0}', '\u{FFEF}', '\u{10000}', '\u{1FFFD}', '\u{E1000}', '\u{EFFFD}',
+		'\u{E000}', '\u{F8FF}', '\u{FFFD}',
+	]
+}
+
+/// Segments whose byte lengths sit on and around machine-word / vector block sizes (a scanner that
+/// works on 8-, 16- or 32-byte blocks has its own boundaries).
+pub fn block_length_segments() -> Vec<Vec<u8>> {
+	[7usize, 8, 9, 15, 16, 17, 31, 32, 33].iter().map(|n| "abcdefghijklmnopqrstuvwxyz0123456789".bytes().cycle().take(*n).collect()).collect()
+}
+
+/// First and last scalar of every ucschar / iprivate block of RFC 3987 and their outside
+/// neighbours, plus the special scalars above.
+pub fn boundary_and_special_scalars() -> Vec<char> {
+	let blocks: [(u32, u32); 20] = [
+		(0xA0, 0xD7FF), (0xF900, 0xFDCF), (0xFDF0, 0xFFEF), (0x10000, 0x1FFFD), (0x20000, 0x2FFFD), (0x30000, 0x3FFFD), (0x40000, 0x4FFFD), (0x50000, 0x5FFFD),
+		(0x60000, 0x6FFFD), (0x70000, 0x7FFFD), (0x80000, 0x8FFFD), (0x90000, 0x9FFFD), (0xA0000, 0xAFFFD), (0xB0000, 0xBFFFD), (0xC0000, 0xCFFFD), (0xD0000, 0xDFFFD),
+		(0xE1000, 0xEFFFD), (0xE000, 0xF8FF), (0xF0000, 0xFFFFD), (0x100000, 0x10FFFD),
+	];
+	let mut v = special_scalars();
+	for (lo, hi) in blocks {
+		for c in [lo.wrapping_sub(1), lo, hi, hi + 1] {
+			if let Some(ch) = char::from_u32(c) {
+				v.push(ch);
+			}
+		}
+	}
+	v.push('\u{7F}');
+	v.push('\u{80}');
+	v.push('\u{9F}');
+	v.sort();
+	v.dedup();
+	v
+}
+
+/// Short reference texts holding one such scalar in every component position, first and last.
+pub fn special_scalar_texts() -> Vec<Vec<u8>> {
+	let mut out = Vec::new();
+	for x in boundary_and_special_scalars() {
+		for tpl in ["X", "s:X", "//X", "//X@X:1/X", "s://h/X?X#X", "Xa", "aX", "aXa", "?X", "#X", "s:?X", "s:#X", "X/X", "/X", "s:a/X:b"] {
+			out.push(tpl.replace('X', &x.to_string()).into_bytes());
+		}
+	}
+	out
 }
